@@ -1424,6 +1424,63 @@ func implTransform(f []string, tmp string) string {
 	return "ok same"
 }
 
+// pipe <signer> <size> <flags>: the input arrives through a pipe (relic sign -f - : not seekable).  The transform either
+// refuses or every GetReader yields exactly the input bytes (never a prefix).
+func implPipe(f []string) string {
+	size := int(hx.Atoi(f[1]))
+	data := make([]byte, size)
+	for i := range data {
+		data[i] = byte('a' + i%23)
+		if i%61 == 60 {
+			data[i] = '\n'
+		}
+	}
+	mod := signers.ByName(f[0])
+	if mod == nil {
+		return "err no-such-signer"
+	}
+	q := url.Values{}
+	if f[2] != "-" {
+		for _, kv := range strings.Split(f[2], ";") {
+			if k, v, ok := strings.Cut(kv, "="); ok {
+				q.Set(k, v)
+			}
+		}
+	}
+	flags, ferr := mod.FlagsFromQuery(q)
+	if ferr != nil {
+		return "err flags"
+	}
+	pr, pw, err := os.Pipe()
+	if err != nil {
+		return "err io"
+	}
+	defer pr.Close()
+	go func() {
+		_, _ = pw.Write(data)
+		pw.Close()
+	}()
+	t, err := mod.GetTransform(pr, signers.SignOpts{Hash: crypto.SHA256, Flags: flags})
+	if err != nil {
+		_, _ = io.Copy(io.Discard, pr) // let the writer finish
+		return "ok refused"
+	}
+	for i := 0; i < 2; i++ {
+		r, err := t.GetReader()
+		if err != nil {
+			return "ok DIFF getreader-error"
+		}
+		got, err := io.ReadAll(r)
+		if err != nil {
+			return "ok DIFF read-error"
+		}
+		if !bytes.Equal(got, data) {
+			return fmt.Sprintf("ok DIFF read%d has %d bytes, input has %d", i+1, len(got), len(data))
+		}
+	}
+	return "ok same"
+}
+
 // jarrepro <missing> <seed>: digest the same JAR 16 times in-process
 func implJarRepro(f []string, tmp string) string {
 	missing, seed := int(hx.Atoi(f[0])), uint64(hx.Atoi(f[1]))
@@ -1474,6 +1531,8 @@ func dispatch(f []string, tmp string) string {
 		return implXraw(f[1:], tmp)
 	case "frag":
 		return implFrag(f[1:], tmp)
+	case "pipe":
+		return implPipe(f[1:])
 	case "transform":
 		return implTransform(f[1:], tmp)
 	case "jarrepro":
